@@ -4,6 +4,9 @@
 #include <foonathan/memory/heap_allocator.hpp>
 #include <foonathan/memory/malloc_allocator.hpp>
 #include <foonathan/memory/new_allocator.hpp>
+#include <foonathan/memory/temporary_allocator.hpp>
+
+#include <memory>
 
 namespace hs
 {
@@ -97,6 +100,119 @@ namespace hs
                              return o;
                          });
     }
+    // temporary_allocator on an explicitly created temporary_stack (single thread; the multi-threaded life of
+    // the per-thread stacks is schedsim's business). Markers are scopes: "top" opens a nested
+    // temporary_allocator, "unwind(m)" ends every scope above m and m itself and opens a fresh one in its place.
+    class TempObj : public Obj
+    {
+    public:
+        explicit TempObj(fm::temporary_stack* s) : stack_(s)
+        {
+            scopes_.emplace_back(new fm::temporary_allocator(*stack_)); // base scope
+        }
+        ~TempObj() override
+        {
+            for (auto& s : scopes_)
+                s.release(); // an abandoned object is never destroyed (destroy() empties the vector otherwise)
+        }
+        using traits = fm::allocator_traits<fm::temporary_allocator>;
+        void* allocate(const Req& r, std::size_t& usable) override
+        {
+            auto& a = *scopes_.back();
+            usable  = r.array ? r.count * r.size : r.size;
+            if (r.fam == MEMBER)
+                return a.allocate(usable, r.align);
+            return r.array ? traits::allocate_array(a, r.count, r.size, r.align) :
+                             traits::allocate_node(a, r.size, r.align);
+        }
+        bool deallocate(const Req&, void*) override
+        {
+            return true; // memory ends with its scope
+        }
+        std::size_t max_node() override
+        {
+            return traits::max_node_size(*scopes_.back());
+        }
+        std::size_t max_array() override
+        {
+            return traits::max_array_size(*scopes_.back());
+        }
+        std::size_t max_align() override
+        {
+            return traits::max_alignment(*scopes_.back());
+        }
+        std::size_t reading(int which, std::size_t) override
+        {
+            return which == 1 ? stack_->next_capacity() : 0;
+        }
+        int push_marker() override
+        {
+            scopes_.emplace_back(new fm::temporary_allocator(*stack_));
+            return int(scopes_.size()) - 2; // marker i <-> scope i+1
+        }
+        void unwind(int i) override
+        {
+            while (int(scopes_.size()) > i + 1)
+                scopes_.pop_back(); // innermost first, as the language would
+            scopes_.emplace_back(new fm::temporary_allocator(*stack_));
+        }
+        void truncate_markers(int) override {}
+        void shrink_to_fit() override
+        {
+            scopes_.back()->shrink_to_fit(); // takes effect when that scope ends
+        }
+        std::size_t object_size() const override
+        {
+            return sizeof(fm::temporary_stack);
+        }
+        Obj* move_construct(void*) override
+        {
+            return nullptr;
+        }
+        void move_assign_from(Obj&) override {}
+        void swap_with(Obj&) override {}
+        void destroy() override
+        {
+            while (!scopes_.empty())
+                scopes_.pop_back();
+            stack_->~temporary_stack();
+        }
+        const void* address() const override
+        {
+            return stack_;
+        }
+
+    private:
+        fm::temporary_stack*                                  stack_;
+        std::vector<std::unique_ptr<fm::temporary_allocator>> scopes_;
+    };
+    static Registrar reg_temp()
+    {
+        Caps c;
+        c.kind       = K_TEMP;
+        c.array      = true;
+        c.markers    = true;
+        c.shrink     = true;
+        c.comp       = false;
+        c.grows      = true;
+        c.unbounded  = true;
+        c.movable    = false;
+        c.assignable = false;
+        c.swappable  = false;
+        return Registrar("temp", sizeof(fm::temporary_stack), c,
+                         [c](const ObjCfg& cfg, void* slot) -> Obj*
+                         {
+                             auto st   = ::new (slot) fm::temporary_stack(cfg.block_size);
+                             auto o    = new TempObj(st);
+                             o->caps   = c;
+                             o->owner  = sim::OWNER_MALLOC;
+                             o->header = arena_header;
+                             o->name   = "temp";
+                             return o;
+                         });
+    }
+    static Registrar rt = reg_temp();
+
     static Registrar r1 = reg_ll<fm::heap_allocator>("ll.heap", sim::OWNER_MALLOC);
     static Registrar r2 = reg_ll<fm::malloc_allocator>("ll.malloc", sim::OWNER_MALLOC);
     static Registrar r3 = reg_ll<fm::new_allocator>("ll.new", sim::OWNER_NEW);
